@@ -832,14 +832,22 @@ static void engine_boot(void) {
 	bn_null(bls_d); bn_new(bls_d); g2_null(bls_q); g2_new(bls_q);
 	rsa_null(rsa_pub); rsa_null(rsa_prv); rsa_new(rsa_pub); rsa_new(rsa_prv);
 	bn_null(ph_pub); bn_new(ph_pub); phpe_null(ph_prv); phpe_new(ph_prv);
-	if (set_curve("BN_P256") != 0) _exit(5);
+}
+
+/* Long-lived keys are generated on first use, outside any fault window (a restart after a
+ * sanitizer abort should cost as little as possible). */
+static void need_keys(void) {
+	if (have_keys) return;
 	if (cp_rsa_gen(rsa_pub, rsa_prv, 768) != RLC_OK) _exit(6);
 	if (cp_phpe_gen(ph_pub, ph_prv, 512) != RLC_OK) _exit(7);
 	have_keys = 1;
 }
 
+static void need_keys(void);
 static void run_op(const op_t *op, const uint8_t *seed, size_t seed_len, uint64_t fill, long fail1, long fail2,
 		int *thrown) {
+	if (strncmp(op->name, "cp_rsa", 6) == 0 || strncmp(op->name, "cp_phpe", 7) == 0) need_keys();
+	if (cur_curve < 0) set_curve("NIST_P256");
 	sim_reseed_fresh(seed, seed_len);
 	setup_inputs();
 	out_len = 0;
